@@ -42,7 +42,8 @@ static void build_object(ezc3d::c3d& c, Built& B) {
     frames.push_back(fr);
   }
   // the extra parameter
-  Param ex(ex_nlen ? sym_str("exname", ex_nlen) : std::string("X"), sym_str("exdesc", ex_dlen, 1));
+  // concname: a fixed mixed-case name instead of a free one (checks whose subject is not the name: a long free name forks on every string compare)
+  Param ex(ex_nlen ? (__vp_cfg("concname") ? std::string("qXtraNamesz").substr(0, ex_nlen) : sym_str("exname", ex_nlen)) : std::string("X"), sym_str("exdesc", ex_dlen, 1));
   std::vector<int> ex_i; std::vector<float> ex_f; std::vector<std::string> ex_s; std::vector<size_t> dims;
   if (ex_type) {
     for (int i = 0; i < ex_ndim; ++i) { char k[8] = "ex_d0"; k[4] = char('0' + i); dims.push_back(__vp_cfg(k)); }
